@@ -389,6 +389,13 @@ def _cross_refs(rep, P, construct, rel, g: CFG, path, muts: List[Mut], where):
     def sym(e: ast.AST) -> tuple:
         if isinstance(e, ast.Name):
             return env.get(e.id, ("var", e.id))
+        if isinstance(e, ast.BinOp) and isinstance(e.op, (ast.Sub, ast.Add)) and isinstance(e.right, ast.Constant) and isinstance(e.right.value, int):
+            # len(T) − 1 right after an append to T is the position of the new entry: lengths are counted relative to the path start
+            l = sym(e.left)
+            if l[0] == "len":
+                k = l[2] - e.right.value if isinstance(e.op, ast.Sub) else l[2] + e.right.value
+                if k >= 0:
+                    return ("len", l[1], k)
         if isinstance(e, ast.Call):
             f = e.func
             if norm(f) == "len" and len(e.args) == 1:
